@@ -255,3 +255,18 @@ func VerifC02GatherTree(name []byte, root VerifC02Node) []VerifC02Cand {
 	mt := verifC02Build(root, known)
 	return verifC02FromCands(d.gatherMatches(0, mt, known))
 }
+
+// VerifC02MatchContent runs candidateMatch.matchContent — the verification every substring candidate proposed by the
+// trigram iterator goes through before it can be reported — for a candidate set up as iterateNgrams does
+// (substrBytes = pattern, substrLowered = toLower(pattern)) at byte offset off, and returns (byteMatchSz, ok).
+// A panic of matchContent (an offset outside the content) is reported as panicked.
+func VerifC02MatchContent(pattern, content []byte, off uint32, caseSensitive bool) (sz uint32, ok bool, panicked bool) {
+	defer func() {
+		if r := recover(); r != nil {
+			panicked = true
+		}
+	}()
+	m := &candidateMatch{substrBytes: pattern, substrLowered: toLower(pattern), byteOffset: off, caseSensitive: caseSensitive}
+	ok = m.matchContent(content)
+	return m.byteMatchSz, ok, false
+}
